@@ -282,9 +282,9 @@ type vc07Bounds struct {
 	// the first fault). KVReads: read steps (Read / ReadShelf calls of the handler) can fail too, not only write-transaction steps.
 	KVFaults bool
 	KVReads  bool
-	PoolTick   int // tick(n) is enabled while fewer than this many original messages are in flight (bounds delay)
-	MaxDepth   int
-	Rmax       int
+	PoolTick int // tick(n) is enabled while fewer than this many original messages are in flight (bounds delay)
+	MaxDepth int
+	Rmax     int
 }
 
 // enabled lists the events of the current state. Faults (drop, dup, lexpire) only while budget remains.
